@@ -114,6 +114,38 @@ def run_search(ctx):
     ctx.sample(evs[3])
     total += n
     selftest(ctx, trace)
+    # the real gRPC handlers of a server process: searches over a dataset / partition that is not there (what a
+    # lagging member sees right after a creation) and with a wrong dimension must fail, not return an empty success
+    import subprocess
+    api = ctx.go_build("cmd/api", "api")
+    node = ctx.go_build("cmd/anndbnode", "anndbnode")
+    classes = ["search.unknowndataset", "searchparts.unknowndataset", "searchparts.foreign", "searchparts.shortpartitionid", "search.dim",
+               "searchparts.dim", "search.emptyquery", "searchparts.emptyquery", "search.ok"]
+    atr = ctx.path("api-search.ndjson")
+    procs = []
+    for gi in range(3):
+        procs.append(subprocess.Popen([api, node, ctx.path("apiw-%d" % gi), ctx.path("api-search-%d.ndjson" % gi), json.dumps(classes[gi::3])],
+                                      stdout=subprocess.PIPE, stderr=subprocess.PIPE, env=vlib.goenv()))
+    for pr in procs:
+        try:
+            pr.communicate(timeout=600)
+        except subprocess.TimeoutExpired:
+            pr.kill()
+            raise vlib.NoVerdict("api driver timed out")
+    with open(atr, "w") as f:
+        for gi in range(3):
+            f.write(open(ctx.path("api-search-%d.ndjson" % gi)).read())
+    av, an = vlib.validate_trace(ctx, "ApiTrace", "ApiTrace.cfg", atr, lambda l: True, chunk_events=5000)
+    aevs = vlib.read_ndjson(atr)
+    if an != len(classes):
+        raise vlib.NoVerdict("api driver covered %d of %d search classes" % (an, len(classes)))
+    for v in av:
+        e = aevs[v[0]]
+        if v[1] == "Setup":
+            raise vlib.NoVerdict("set-up of a server for class %s failed: %s" % (e["class"], e["setup"]))
+        if v[1] == "SilentSuccess":
+            ctx.finding("SilentSuccess@%s" % e["class"], "SilentSuccess: the request class %s was answered with an (empty) success instead of an error" % e["class"], {"event": e})
+    ctx.log("%d search request classes against the real handlers: %d silent successes" % (an, sum(1 for v in av if v[1] == "SilentSuccess")))
     # the running system: searches through every one of three real server processes (partitions spread with two
     # replicas each, every search fans out to real peers), before and after kill -9 / restart and with a node down:
     # the 5 nearest are the 5 nearest of the full result, which holds exactly the acknowledged items
